@@ -93,6 +93,12 @@ class Check(CheckBase):
                               'seed': random.Random(f'C10/{self.seed}/{mn}/{mx}/{rep_i}').randrange(1 << 30),
                               'streams': 14 if quick else 40,
                               'exhaustive_lengths': (mx <= 16 and rep_i == 0)})
+        # parameters above the built-in defaults (max_length 5 120 000, feeds of 16 MiB as Repository reads files)
+        for i in range(1 if quick else 6):
+            rr = random.Random(f'C10/{self.seed}/large/{i}')
+            mx = rr.choice([6_000_000, 5_200_000, 8_000_000])
+            cases.insert(0, {'kind': 'large', 'min': rr.choice([128_000, 4096, mx // 16 // 4 * 4]), 'max': mx,
+                             'seed': rr.randrange(1 << 30), 'timeout': 900})
         for (mn, mx) in pairs:
             if mx <= 257 or not quick:
                 cases.append({'kind': 'direct', 'min': mn, 'max': mx,
@@ -135,6 +141,8 @@ class Check(CheckBase):
             unmet.append(f'sanitized next_cut calls {c.get("asan_calls", 0)} < {need}')
         if c.get('guard_calls', 0) < need // 4:
             unmet.append('too few guard-page calls')
+        if c.get('large_parameter_streams', 0) < 3:
+            unmet.append('no stream with parameters above the built-in defaults')
         if c.get('shared_adapter_streams', 0) < 500:
             unmet.append('too few streams through a long-lived adapter object')
         for m4 in range(4):
@@ -161,7 +169,10 @@ class Check(CheckBase):
                 for p in pieces:
                     block[:len(p)] = p
                     yield memoryview(block)[:len(p)]
-            return [bytes(c) for c in ch(producer(), params=key)]
+            # chunks are looked at only after the whole stream has been consumed (Repository queues them for its workers):
+            # a chunk that is a view into the producer's block has changed by then
+            held = list(ch(producer(), params=key))
+            return [bytes(c) for c in held]
         return [bytes(c) for c in ch(iter(pieces), params=key)]
 
     def _disturb(self, adapter, r, mx):
@@ -198,7 +209,49 @@ class Check(CheckBase):
             return self._adapter(case)
         if case['kind'] == 'direct':
             return self._direct(case)
+        if case['kind'] == 'large':
+            return self._large(case)
         return self._params(case)
+
+    def _large(self, case):
+        mn, mx = case['min'], case['max']
+        r = random.Random(case['seed'])
+        violations, classes = [], set()
+        n = 9 * mx + r.randrange(0, mx) + r.choice([0, 1, 3])
+        data = r.randbytes(n)
+        key = r.randbytes(16)
+        feeds = {'one': [data], '16MiB': [data[i:i + (16 << 20)] for i in range(0, n, 16 << 20)],
+                 'random': segment(r, data, 'random', mx)}
+
+        def heads(chs):
+            out, p = [], 0
+            for c in chs:
+                if p >= n - 2 * mx:
+                    break
+                out.append((p, len(c)))
+                p += len(c)
+            return out
+        ref = None
+        for name, pieces in feeds.items():
+            chs = self._chunks('plain', 'direct', mn, mx, pieces, key)
+            ident = {'min': mn, 'max': mx, 'len': n, 'feed': name, 'chunk_lens': [len(c) for c in chs][:30]}
+            if b''.join(chs) != data:
+                violations.append({'what': 'concatenation of chunks differs from the input (large parameters)', 'mechanism': None, 'witness': ident})
+            pos = 0
+            for c in chs:
+                if pos < n - 2 * mx and not (mn <= len(c) <= mx and len(c) % 4 == 0):
+                    violations.append({'what': f'chunk at offset {pos} has length {len(c)} outside [{mn},{mx}] or unaligned (large parameters)',
+                                       'mechanism': None, 'witness': ident})
+                    break
+                pos += len(c)
+            if ref is None:
+                ref = heads(chs)
+            elif heads(chs) != ref:
+                violations.append({'what': f'chunks before the tail zone depend on the segmentation (one feed vs {name}, max_length {mx})',
+                                   'mechanism': None, 'witness': dict(ident, a=ref[:12], b=heads(chs)[:12])})
+            classes.add(f'large|{name}')
+        return {'verdict': 'violated' if violations else 'held', 'classes': sorted(classes),
+                'counters': {'adapter_cases': 3, 'large_parameter_streams': 3}, 'violations': violations[:4]}
 
     def _adapter(self, case):
         mn, mx = case['min'], case['max']
